@@ -97,7 +97,12 @@ def collectStep {ν : Type} (cov : String → Bool) (c : Coll ν) (e : String ×
 def collect {ν : Type} (cov : String → Bool) (ord : Entries String ν) (c : Coll ν) : Coll ν :=
   ord.foldl (collectStep cov) c
 
-def sortStrings (l : List String) : List String := l.mergeSort (fun a b => decide (a ≤ b))
+/-- `sort.Strings` (the result is the sorted list, whatever the algorithm; insertion sort is kernel-reducible) -/
+def insertSorted (a : String) : List String → List String
+  | [] => [a]
+  | b :: l => if a ≤ b then a :: b :: l else b :: insertSorted a l
+
+def sortStrings (l : List String) : List String := l.foldr insertSorted []
 
 /-- the whole of nilCheckWrite for one side: one pass per written promoted field, each pass with its own
     iteration order (`ords`), then the sort.  Result: `PtrPathList` and `PtrTypeMap` -/
